@@ -17,6 +17,7 @@ import Pogreb.Model
 import Pogreb.Spec
 import Pogreb.BucketCodec
 import Pogreb.Lock
+import Pogreb.FileIndex
 open Pogreb
 
 abbrev SpecMap := AList Bytes Bytes
@@ -33,6 +34,10 @@ structure D where
   isOpen   : Bool := false
   ambiguous : Bool := false    -- the last write was in flight when the process died
   noLayout : Bool := false     -- the model does not know the index layout (golden directory)
+  fidx : FIndex := FIndex.empty      -- file-level shadow of the model index (overflow allocator, free list)
+  fidxValid : Bool := false
+  flayoutAgree : Nat := 0
+  flayoutTotal : Nat := 0
   lockSys : Pogreb.Lock.Sys := Pogreb.Lock.Sys.init
   lockProcs : Nat := 0
   lockSteps : Nat := 0
@@ -285,6 +290,16 @@ def checkDump (d : D) (toks : List String) : IO D := do
   let agree := d.noLayout || (decide (chains = d.st.idx.chains) && level == d.st.idx.level && split == d.st.idx.split)
   if !agree then
     IO.println s!"INFO layout case={d.caseName} line={d.lineNo} real index layout differs from the model's"
+  -- file-level layout (informational): overflow placement and free list as the model's allocator predicts
+  let fagree := d.fidxValid && !d.noLayout &&
+    decide (d.fidx.free = free.map (· / 512)) && d.fidx.ovf.length * 512 == ovf.length &&
+    decide (d.fidx.parse.chains = chains)
+  let linkedModel := d.fidx.linked
+  let fagree := fagree && decide (linkedModel = linked.map (· / 512))
+  if d.fidxValid && !d.noLayout && !fagree then
+    IO.println s!"INFO flayout case={d.caseName} line={d.lineNo} overflow allocation / free list differ from the file-level model (model free {d.fidx.free}, real {free.map (· / 512)})"
+  if d.fidxValid && !d.noLayout then
+    d := { d with flayoutAgree := d.flayoutAgree + (if fagree then 1 else 0), flayoutTotal := d.flayoutTotal + 1 }
   let mc := chains.foldl (fun m c => max m c.length) 0
   let holes := chains.foldl (fun n c => n + (c.dropLast.filter (fun b => b.length < 31)).length) 0
   pure { d with layoutAgree := d.layoutAgree + (if agree then 1 else 0), layoutTotal := d.layoutTotal + 1,
@@ -363,6 +378,25 @@ def noteWrite (d : D) (k : Bytes) (v : Option Bytes) : D :=
 def countRollover (before after : MState) (d : D) : D :=
   if after.segs.length > before.segs.length then { d with rollovers := d.rollovers + 1 } else d
 
+/-- File-level shadow: repoint the slot (hash, seg, off) like `promoteRecord`. -/
+def FIndex.repoint (fi : FIndex) (h seg off seg' off' : Nat) : FIndex :=
+  let c := fi.chainRefs (bucketIdx fi.level fi.split h)
+  match FIndex.findMatch h (fun s => s.off == off && s.seg == seg) c with
+  | some (r, b, i) =>
+    match b.slots[i]? with
+    | some s => fi.write r { b with slots := b.slots.set i { s with seg := seg', off := off' } }
+    | none => fi
+  | none => fi
+
+/-- Replay of the model's segments into a fresh file-level index (mirrors `reopenRecover`). -/
+def shadowRecover (st : MState) : FIndex :=
+  (MState.sortBySeq st.segs).foldl (fun fi s =>
+    (MState.recsWithOffsets s.data).foldl (fun fi (off, r) =>
+      if r.del then fi.delete (st.hashOf r.key) (st.matchKey r.key)
+      else
+        let sl : Slot := ⟨st.hashOf r.key, s.id, r.key.length % 65536, r.val.length % 4294967296, off⟩
+        fi.put loadPolicy sl (st.matchKey r.key)) fi) FIndex.empty
+
 def doPut (d : D) (toks : List String) : IO D := do
   let some k := (toks[1]?).bind unhex | fail d "MODEL" "put: bad key"
   let some v := (toks[2]?).bind unhex | fail d "MODEL" "put: bad value"
@@ -372,6 +406,9 @@ def doPut (d : D) (toks : List String) : IO D := do
   let d := countRollover d.st st' d
   let mut d := { d with st := st' }
   if r == .ok then
+    d := match st'.idx.get (st'.hashOf k) (st'.matchKey k) with
+      | some sl => { d with fidx := d.fidx.put loadPolicy sl (st'.matchKey k) }
+      | none => { d with fidxValid := false }
     d := noteWrite { d with specPrev := d.spec, spec := d.spec.put k v } k (some v)
   else
     d := { d with specPrev := d.spec }
@@ -383,6 +420,7 @@ def doDel (d : D) (toks : List String) : IO D := do
   let some k := (toks[1]?).bind unhex | fail d "MODEL" "del: bad key"
   let res := toks.getD 2 ""
   let st' := d.st.delete k
+  let d := if d.st.has k then { d with fidx := d.fidx.delete (d.st.hashOf k) (d.st.matchKey k) } else d
   let d := countRollover d.st st' d
   let mut d := noteWrite { d with st := st', specPrev := d.spec, spec := d.spec.del k } k none
   if res != "ok" then
@@ -602,6 +640,10 @@ def step (d : D) (line : String) : IO D := do
         | "clean" => { d.st.reopenClean with seed := seed }
         | _ => d.st.reopenRecover seed
       let d := if kind == "recover" then { d with recoveries := d.recoveries + 1 } else d
+      let d := match kind with
+        | "fresh" => { d with fidx := FIndex.empty, fidxValid := true }
+        | "clean" => d
+        | _ => { d with fidx := shadowRecover st, fidxValid := true }
       let mut d := { d with st := st, isOpen := true, specPrev := if d.ambiguous then d.specPrev else d.spec }
       if kind == "clean" && seed != d.st.seed then
         d ← fail d "MODEL" "open: hash seed changed across a clean restart"
@@ -640,7 +682,7 @@ def step (d : D) (line : String) : IO D := do
         | _, _ => none
       | _ => none
     let sorted := segs.foldl (fun acc s => MState.insertSeg acc s) []
-    pure { d with st := { d.st with segs := sorted, cur := none } }
+    pure { d with st := { d.st with segs := sorted, cur := none }, fidxValid := false }
   | "cbegin" :: rest =>
     let picked : List Nat := match field rest "pick" with
       | some "-" => []
@@ -658,8 +700,19 @@ def step (d : D) (line : String) : IO D := do
       if point == "compact.sealed" then
         pure (finishCompaction d)
       else if point == "compact.record" then
-        let (st, c) := d.st.compactRecord c
-        pure { d with st := st, comp := some c }
+        let (st, c') := d.st.compactRecord c
+        -- shadow: if the record was promoted, the slot that pointed at (src, off) now points elsewhere
+        let d := match c.source, c.todo with
+          | some src, (off, r) :: _ =>
+            if r.del then d else
+            match st.idx.get (st.hashOf r.key) (st.matchKey r.key) with
+            | some sl =>
+              if (d.st.idx.repoint (d.st.hashOf r.key) src off src off).isSome then
+                { d with fidx := FIndex.repoint d.fidx (d.st.hashOf r.key) src off sl.seg sl.off }
+              else d
+            | none => d
+          | _, _ => d
+        pure { d with st := st, comp := some c' }
       else pure d
   | "cend" :: res :: rest =>
     let d := finishCompaction d
@@ -685,5 +738,5 @@ partial def loop (h : IO.FS.Stream) (d : D) : IO D := do
 
 def main : IO UInt32 := do
   let d ← loop (← IO.getStdin) {}
-  IO.println s!"SUMMARY cases={d.cases} lines={d.lines} fails={d.fails} spec_fails={d.specFails} inv_fails={d.invFails} model_fails={d.modelFails} images={d.images} inflight_after={d.imagesInflightAfter} inflight_before={d.imagesInflightBefore} dumps={d.dumps} layout_agree={d.layoutAgree}/{d.layoutTotal} seg_checks={d.segChecks} max_chain={d.maxChain} max_buckets={d.maxBuckets} rollovers={d.rollovers} compactions={d.compactions} recoveries={d.recoveries} holes={d.holes} alloc_checks={d.allocChecks} max_alloc_ratio={d.maxAllocRatio} tail_checks={d.tailChecks} goldens={d.goldens} scans={d.scans} scans_with_writers={d.scansWithWriters} backups={d.backups} lock_steps={d.lockSteps} conc_checks={d.concChecks} alias_checks={d.aliasChecks} fsdiff_checks={d.fsdiffChecks}"
+  IO.println s!"SUMMARY cases={d.cases} lines={d.lines} fails={d.fails} spec_fails={d.specFails} inv_fails={d.invFails} model_fails={d.modelFails} images={d.images} inflight_after={d.imagesInflightAfter} inflight_before={d.imagesInflightBefore} dumps={d.dumps} layout_agree={d.layoutAgree}/{d.layoutTotal} flayout_agree={d.flayoutAgree}/{d.flayoutTotal} seg_checks={d.segChecks} max_chain={d.maxChain} max_buckets={d.maxBuckets} rollovers={d.rollovers} compactions={d.compactions} recoveries={d.recoveries} holes={d.holes} alloc_checks={d.allocChecks} max_alloc_ratio={d.maxAllocRatio} tail_checks={d.tailChecks} goldens={d.goldens} scans={d.scans} scans_with_writers={d.scansWithWriters} backups={d.backups} lock_steps={d.lockSteps} conc_checks={d.concChecks} alias_checks={d.aliasChecks} fsdiff_checks={d.fsdiffChecks}"
   return (if d.fails == 0 then 0 else 1)
